@@ -89,6 +89,17 @@ template <class L, class R> static void product_vm(const char* lf, const char* r
   } catch (const std::exception& e) { std::printf("P vector:%s %s 1 %d %d -1 EXC:%s\n", lf, rf, k, n, what_of(e).c_str()); }
 }
 
+// strides of both operands and the product, for the model (dense x dense and dense x vector)
+static void describe_mm(const char* lf, const char* rf, const Matrix& l, const Matrix& r, int m, int k, int n) {
+  try { Matrix C = matmul(l, r);
+    std::printf("D mm %d %d %d | %d %d | %d %d |", m, k, n, (int)l.offset(0), (int)l.offset(1), (int)r.offset(0), (int)r.offset(1));
+    for (int i = 0; i < m; ++i) for (int j = 0; j < n; ++j) std::printf(" %.17g", C(i, j)); std::printf("\n"); } catch (...) { }
+}
+static void describe_mv(const Matrix& l, const Vector& v, int m, int k) {
+  try { Vector c = matmul(l, v);
+    std::printf("D mv %d %d 1 | %d %d | %d 0 |", m, k, (int)l.offset(0), (int)l.offset(1), (int)v.offset(0));
+    for (int i = 0; i < m; ++i) std::printf(" %.17g", c(i)); std::printf("\n"); } catch (...) { }
+}
 // ---- special matrices (n x n), filled through element access
 template <class S> static void fill_special(S& s, int n, int salt) {
   s.resize(n);
@@ -102,7 +113,8 @@ template <class S> static void special_cases(const char* name, int n, int salt) 
   for (int rf = 0; rf < N_MFORM; ++rf) { MHold r; make_matrix(rf, n, 3, salt + 1, r); product_mm(name, MFORMS[rf], s, r.view, n, n, 3); }
   for (int lf = 0; lf < N_MFORM; ++lf) { MHold l; make_matrix(lf, 2, n, salt + 2, l); product_mm(MFORMS[lf], name, l.view, s, 2, n, n); }
   for (int vf = 0; vf < N_VFORM; ++vf) { VHold v; make_vector(vf, n, salt + 3, v); product_mv(name, VFORMS[vf], s, v.view, n, n); product_vm(VFORMS[vf], name, v.view, s, n, n); }
-  product_mm((std::string(name) + ".T()").c_str(), "row-major", s.T(), Matrix(s), n, n, n);
+  // the transpose of a DiagMatrix is the subject of a recorded finding of C17 (diagmatrix-transpose), not of the product
+  if (std::string(name) != "DiagMatrix") product_mm((std::string(name) + ".T()").c_str(), "row-major", s.T(), Matrix(s), n, n, n);
 }
 
 // ---- active operands: Jacobians
@@ -174,10 +186,12 @@ int main(int argc, char** argv) {
     for (int lf = 0; lf < N_MFORM; ++lf) for (int rf = 0; rf < N_MFORM; ++rf) {
       MHold l, r; make_matrix(lf, m, k, 1, l); make_matrix(rf, k, n, 2, r);
       product_mm(MFORMS[lf], MFORMS[rf], l.view, r.view, m, k, n);
+      describe_mm(MFORMS[lf], MFORMS[rf], l.view, r.view, m, k, n);
     }
     for (int lf = 0; lf < N_MFORM; ++lf) for (int vf = 0; vf < N_VFORM; ++vf) {
       MHold l; make_matrix(lf, m, k, 1, l); VHold v; make_vector(vf, k, 2, v);
       product_mv(MFORMS[lf], VFORMS[vf], l.view, v.view, m, k);
+      describe_mv(l.view, v.view, m, k);
       MHold r; make_matrix(lf, k, n, 3, r); VHold w; make_vector(vf, k, 4, w);
       product_vm(VFORMS[vf], MFORMS[lf], w.view, r.view, k, n);
     }
